@@ -345,8 +345,17 @@ def run(tier, seed, replay=None):
             e = (f"dist_values_cert {A} {B} {nw.wit_expr(s1, ref['a'])} {nw.wit_expr(s2, ref['b'])} {nw.vq(n)} "
                  f"{nw._q(lo)} {nw._q(up)} [{'; '.join(nw._q(v) for v in vals)}] {nw._q(tau)}")
             exprs.append(e)
+            # alternative untrusted witnesses, used only if the first enclosure is not certified
+            alts = []
+            if ref is rj and ro and "exc" not in ro and finite_pt(ro.get("a")) and finite_pt(ro.get("b")) and math.isfinite(ro["d"]):
+                alts.append(dict(a=ro["a"], b=ro["b"], d=ro["d"], src="gjk_distance_original"))
+            if c["meta"].get("dir") is not None and c["meta"].get("gap") is not None and c["meta"]["gap"] >= 0:
+                u = np.array(c["meta"]["dir"], float)
+                pa, pb = nw.support_point(s1, u), nw.support_point(s2, -u)
+                alts.append(dict(a=pa.tolist(), b=pb.tolist(), d=float(np.linalg.norm(pb - pa)), src="construction"))
             idx.append((i, "nest", dict(names=names, vals=vals, lo=lo, up=up, A=A, B=B, wa=nw.wit_expr(s1, ref['a']),
-                                        wb=nw.wit_expr(s2, ref['b']), n=n)))
+                                        wb=nw.wit_expr(s2, ref['b']), n=n, alts=alts, tau=tau,
+                                        src="gjk_distance_jolt" if ref is rj else "gjk_distance_original")))
         elif vals:
             bump("nesterov:no_reference")
         # ---- same answer path
@@ -414,12 +423,52 @@ def run(tier, seed, replay=None):
         except RuntimeError as e:
             R.proof_broken.append(f"checker evaluation failed: {str(e)[:400]}")
             enc = ["false"] * len(redo)
-        for (i, info), v in zip(redo, enc):
+        # second chance for the cases whose first enclosure was not certified: other untrusted witnesses
+        second, second_idx = [], []
+        for k, ((i, info), v) in enumerate(zip(redo, enc)):
+            if v.strip() == "true":
+                continue
+            L = cases[i]["meta"]["L"]
+            for alt in info["alts"]:
+                eps = ENC_K * L
+                lo2, up2 = max(0.0, alt["d"] - eps), alt["d"] + eps
+                n2 = (np.array(alt["b"]) - np.array(alt["a"])).tolist()
+                if all(x == 0 for x in n2):
+                    n2 = [1.0, 0.0, 0.0]
+                wa2, wb2 = nw.wit_expr(cases[i]["c1"], alt["a"]), nw.wit_expr(cases[i]["c2"], alt["b"])
+                second.append(f"enclosure_cert {info['A']} {info['B']} {wa2} {wb2} {nw.vq(n2)} {nw._q(lo2)} {nw._q(up2)}")
+                second.append(f"dist_values_cert {info['A']} {info['B']} {wa2} {wb2} {nw.vq(n2)} {nw._q(lo2)} {nw._q(up2)} "
+                              f"[{'; '.join(nw._q(x) for x in info['vals'])}] {nw._q(info['tau'])}")
+                second_idx.append((k, alt, lo2, up2))
+        sec_out = {}
+        if second:
+            try:
+                so = cm.coq_eval_lines(PID, nb.COQ_HEADER, second, tag="explain2", per_file=20, timeout=1500)
+            except RuntimeError as e:
+                R.proof_broken.append(f"checker evaluation failed: {str(e)[:400]}")
+                so = ["false"] * len(second)
+            for j, (k, alt, lo2, up2) in enumerate(second_idx):
+                if k in sec_out:
+                    continue
+                if so[2 * j].strip() == "true":
+                    sec_out[k] = (so[2 * j + 1].strip() == "true", alt, lo2, up2)
+        for k, ((i, info), v) in enumerate(zip(redo, enc)):
             c = cases[i]
             L = c["meta"]["L"]
             if v.strip() != "true":
-                bump("nest:enclosure_not_certified")
-                continue
+                if k not in sec_out:
+                    bump("nest:enclosure_not_certified")
+                    continue
+                ok2, alt, lo2, up2 = sec_out[k]
+                bump(f"nest:first_reference_rejected({info['src']})_second({alt['src']})_certified")
+                R.notes.append(f"the result of {info['src']} did not certify an enclosure but {alt['src']} did (true distance in "
+                               f"[{lo2!r}, {up2!r}], {info['src']} said [{info['lo']!r}, {info['up']!r}]): "
+                               f"c1={json.dumps(c['c1'])} c2={json.dumps(c['c2'])}"[:1500])
+                if ok2:
+                    ok_by_case.setdefault(i, set()).add("nest")
+                    bump("nest:accepted")
+                    continue
+                info = dict(info, lo=lo2, up=up2)
             rejected += 1
             bump("nest:rejected")
             tau = TAU_K * L
